@@ -156,6 +156,8 @@ type vHist struct {
 	weights int // number of table entries in use
 	lastErr error
 	steps   int
+
+	okSubmit map[int]bool // headers whose submission through submit()/scripted() returned nil
 }
 
 func newHist(maxDepth int) *vHist {
@@ -242,7 +244,17 @@ func (h *vHist) submit() (int, error) {
 	i := h.record(hd, p)
 	err := h.repo.ProcessHeader(h.ctx, hd)
 	h.lastErr = err
+	h.noteSubmit(i, err)
 	return i, err
+}
+
+func (h *vHist) noteSubmit(i int, err error) {
+	if h.okSubmit == nil {
+		h.okSubmit = map[int]bool{0: true}
+	}
+	if err == nil {
+		h.okSubmit[i] = true
+	}
 }
 
 // known: the repository itself reports the hash as known.
@@ -312,10 +324,11 @@ func errClass(err error) string {
 
 // checkTip asserts C01's statement against the reference tree.
 func (h *vHist) checkTip(tag string) {
-	// heaviest header the repository says it knows
+	// heaviest header the repository accepted (its submission returned nil) or says it knows:
+	// an accepted header that was forgotten along the way still counts
 	best := -1
 	for i := range h.hdr {
-		if !h.linked[i] || !h.known(i) {
+		if !h.linked[i] || !(h.okSubmit[i] || h.known(i)) {
 			continue
 		}
 		if best == -1 || h.cum[i].Cmp(h.cum[best]) > 0 {
@@ -461,6 +474,7 @@ func (h *vHist) scripted(parent, weight int) (int, error) {
 	hd.PrevBlock = h.hash[parent]
 	idx := h.record(hd, parent)
 	err := h.repo.ProcessHeader(h.ctx, hd)
+	h.noteSubmit(idx, err)
 	return idx, err
 }
 
